@@ -22,6 +22,10 @@
 //!                performs ops; free-running, ordered by flags raised inside the section
 //!   attach       in = [steps, mode, data, parts, cfg]   set_metrics / run / take_metrics /
 //!                get_metrics sequences on one pipeline over several marked collectors
+//!   saves        in = [ncoll, npaths, steps]   multi-step export sequences: calls on several
+//!                collectors interleaved with save_to_file on shared paths (growing, shrinking,
+//!                equal exports; files of other programs; removed files; paths that cannot be
+//!                created); to_json / snapshot / print / every file observed after every step
 //!
 //! Metric names are integers: k >= 0 is the string "c<k>", -1 is "execution_time_ms".
 //! A metric is [name, kind, val]: kind 0 = CounterMetric(val), kind 1 = some other metric
@@ -221,6 +225,7 @@ trait Coll: Send + Sync {
     fn snap(&self) -> HashMap<String, Value>;
     fn json(&self) -> Value;
     fn save(&self, path: &str) -> bool;
+    fn print(&self);
 }
 
 struct Real(MetricsCollector);
@@ -255,6 +260,9 @@ impl Coll for Real {
     fn save(&self, path: &str) -> bool {
         self.0.save_to_file(path).is_ok()
     }
+    fn print(&self) {
+        self.0.print();
+    }
 }
 
 /// Copy of the relevant part of src/metrics.rs with ONE seeded defect (sensitivity self-test).
@@ -269,6 +277,8 @@ enum Defect {
     SkipNull,     // to_json leaves out metrics whose value() is JSON null (NaN / inf gauges)
     SubsecMillis, // to_json exports subsec_millis() (the duration modulo one second)
     TryLockSet,   // set_counter gives up silently when the lock is held
+    NoTruncSave,  // save_to_file opens the file without truncating it
+    PrintNoTime,  // print() forgets the execution time lines
 }
 struct MutInner {
     metrics: HashMap<String, Box<dyn Metric>>,
@@ -384,17 +394,57 @@ impl Coll for Mutant {
             if self.defect == Defect::SkipNull && m.value().is_null() {
                 continue;
             }
-            o.insert(n.clone(), json!({"value": m.value()}));
+            let mut e = serde_json::Map::new();
+            e.insert("value".into(), m.value());
+            if let Some(d) = m.description() {
+                e.insert("description".into(), json!(d));
+            }
+            o.insert(n.clone(), Value::Object(e));
         }
         if let (Some(s), Some(e)) = (inner.start_time, inner.end_time) {
             let d = e.duration_since(s);
             let ms = if self.defect == Defect::SubsecMillis { u64::from(d.subsec_millis()) } else { d.as_millis() as u64 };
-            o.insert("execution_time_ms".into(), json!({"value": ms}));
+            o.insert(
+                "execution_time_ms".into(),
+                json!({"value": ms, "description": "Total pipeline execution time in milliseconds"}),
+            );
         }
         Value::Object(o)
     }
     fn save(&self, path: &str) -> bool {
-        std::fs::write(path, serde_json::to_string_pretty(&self.json()).unwrap()).is_ok()
+        let text = serde_json::to_string_pretty(&self.json()).unwrap();
+        if self.defect == Defect::NoTruncSave {
+            use std::io::Write;
+            return std::fs::OpenOptions::new()
+                .write(true)
+                .create(true)
+                .open(path)
+                .and_then(|mut f| f.write_all(text.as_bytes()))
+                .is_ok();
+        }
+        std::fs::write(path, text).is_ok()
+    }
+    fn print(&self) {
+        println!("\n========== Pipeline Metrics ==========");
+        yield_point("metrics");
+        let inner = self.inner.lock().unwrap();
+        if let (Some(s), Some(e)) = (inner.start_time, inner.end_time) {
+            if self.defect != Defect::PrintNoTime {
+                let d = e.duration_since(s);
+                println!("Execution Time: {:.3}s ({} ms)", d.as_secs_f64(), d.as_millis());
+                println!("--------------------------------------");
+            }
+        }
+        let mut sorted: Vec<_> = inner.metrics.iter().collect();
+        sorted.sort_by_key(|(n, _)| *n);
+        for (n, m) in sorted {
+            match m.description() {
+                Some(d) => println!("{}: {} ({})", n, m.value(), d),
+                None => println!("{}: {}", n, m.value()),
+            }
+        }
+        drop(inner);
+        println!("======================================\n");
     }
 }
 
@@ -410,6 +460,8 @@ fn new_collector() -> Arc<dyn Coll> {
         Some("skip_null") => Arc::new(Mutant::new(Defect::SkipNull)),
         Some("subsec_millis") => Arc::new(Mutant::new(Defect::SubsecMillis)),
         Some("trylock_set") => Arc::new(Mutant::new(Defect::TryLockSet)),
+        Some("notrunc_save") => Arc::new(Mutant::new(Defect::NoTruncSave)),
+        Some("print_notime") => Arc::new(Mutant::new(Defect::PrintNoTime)),
         Some(other) => panic!("unknown C16_MUTANT {other}"),
     }
 }
@@ -1023,6 +1075,193 @@ fn run_export(input: &Value) -> Value {
     json!(["ok", snap_keys, canon_keys(&j), shaped, file_keys, counters, time])
 }
 
+// ------------------------------------------------------------------ export sequences on shared paths
+
+unsafe extern "C" {
+    fn dup(fd: i32) -> i32;
+    fn dup2(from: i32, to: i32) -> i32;
+    fn close(fd: i32) -> i32;
+}
+
+/// while alive, file descriptor 1 points at `file`; the case lines of the emitter are written
+/// between cases only, so nothing else reaches stdout meanwhile
+struct StdoutRedirect {
+    saved: i32,
+}
+impl StdoutRedirect {
+    fn to(file: &std::fs::File) -> Self {
+        use std::io::Write;
+        use std::os::fd::AsRawFd;
+        // a partial line of an earlier case still sitting in std's line buffer belongs to the real stdout
+        std::io::stdout().flush().unwrap();
+        let saved = unsafe { dup(1) };
+        assert!(saved >= 0);
+        assert!(unsafe { dup2(file.as_raw_fd(), 1) } >= 0);
+        Self { saved }
+    }
+}
+impl Drop for StdoutRedirect {
+    fn drop(&mut self) {
+        use std::io::Write;
+        let _ = std::io::stdout().flush();
+        unsafe {
+            dup2(self.saved, 1);
+            close(self.saved);
+        }
+    }
+}
+
+/// what print() writes to stdout
+fn capture_print(c: &dyn Coll, tmp: &std::path::Path) -> Vec<u8> {
+    let f = std::fs::File::create(tmp).unwrap();
+    {
+        let _g = StdoutRedirect::to(&f);
+        c.print();
+    }
+    drop(f);
+    std::fs::read(tmp).unwrap()
+}
+
+/// [length, polynomial hash (wrapping, low 61 bits)] of a byte string (Corr/C16.v computes the same of the model's text)
+fn digest(b: &[u8]) -> Value {
+    let mut h: u64 = 7;
+    for &x in b {
+        h = h.wrapping_mul(257).wrapping_add(u64::from(x) + 1);
+    }
+    json!([b.len(), h & ((1u64 << 61) - 1)])
+}
+fn bytes_json(b: &[u8]) -> Value {
+    json!({ "bytes": b })
+}
+const FULL_TEXT_LIMIT: usize = 1500;
+
+/// in = [ncoll, npaths, steps]: a script over `ncoll` collectors and the files m0.json ..
+/// m<npaths-1>.json of one scratch directory (path -1: missing parent directory, -2: the
+/// directory itself).  step =
+///   [0,n,v] increment | [1,n,v] set_counter | [2,n,v] register counter | [3,n,v] register other |
+///   [4,metrics] register_all | [5] record_start | [6] record_end | [7,p] save_to_file(p) |
+///   [8,p] remove file p | [9,p,len,b] some other program writes len bytes to p |
+///   [10,k] go on with collector k | [11,ms] sleep |
+///   [12,base,count,v,mode] for i < count on c<base+i>: set_counter(v) (mode 0) / increment(v) (1) /
+///                          one register_all of counters v (2)
+/// After EVERY step: [result (0 ok, 1 err), elapsed ns | null, [lo,hi] | null (record_end with a
+/// start before it: the harness's own bracket), digest of to_string_pretty(to_json()), digest of
+/// the snapshot (as a sorted compact object), digest of what print() writes, digest | null of
+/// every file, save info | null]; save info = [file parses as JSON, parsed == to_json(), file text
+/// == to_string_pretty(to_json()), keys of the parsed file].  At the end the four texts
+/// themselves (to_json, snapshot, print, files) when short.
+fn run_saves(input: &Value) -> Value {
+    set_yield_hook(None);
+    let ncoll = input[0].as_u64().unwrap() as usize;
+    let npaths = input[1].as_i64().unwrap();
+    let colls: Vec<Arc<dyn Coll>> = (0..ncoll).map(|_| new_collector()).collect();
+    let mut starts: Vec<Option<(Instant, Instant)>> = vec![None; ncoll];
+    let mut cur = 0usize;
+    std::fs::create_dir_all(SCRATCH).unwrap();
+    let dir = tempfile::Builder::new().prefix("saves-").tempdir_in(SCRATCH).unwrap();
+    let files_dir = dir.path().join("out");
+    std::fs::create_dir_all(&files_dir).unwrap();
+    let tmp = dir.path().join("stdout.txt");
+    let path_of = |p: i64| -> std::path::PathBuf {
+        match p {
+            -1 => files_dir.join("missing").join("m.json"),
+            -2 => files_dir.clone(),
+            _ => files_dir.join(format!("m{p}.json")),
+        }
+    };
+    let snapshot_text = |c: &dyn Coll| -> String {
+        let m: serde_json::Map<String, Value> = c.snap().into_iter().collect();
+        serde_json::to_string(&Value::Object(m)).unwrap()
+    };
+    let mut obs = Vec::new();
+    for st in input[2].as_array().unwrap() {
+        let c = Arc::clone(&colls[cur]);
+        let arg = |i: usize| st[i].as_i64().unwrap();
+        let mut res = 0;
+        let mut lohi = Value::Null;
+        let mut info = Value::Null;
+        match arg(0) {
+            0 => c.inc(&name_str(arg(1)), st[2].as_u64().unwrap()),
+            1 => c.set(&name_str(arg(1)), st[2].as_u64().unwrap()),
+            2 => c.reg(make_metric(arg(1), 0, arg(2))),
+            3 => c.reg(make_metric(arg(1), 1, arg(2))),
+            4 => c.reg_all(parse_metrics(&st[1])),
+            5 => {
+                let t0 = Instant::now();
+                c.start();
+                starts[cur] = Some((t0, Instant::now()));
+            }
+            6 => {
+                let t0 = Instant::now();
+                c.end();
+                let t1 = Instant::now();
+                if let Some((s0, s1)) = starts[cur] {
+                    lohi = json!([ns(t0.saturating_duration_since(s1)), ns(t1.duration_since(s0))]);
+                }
+            }
+            7 => {
+                let path = path_of(arg(1));
+                if c.save(path.to_str().unwrap()) {
+                    let j = c.json();
+                    let bytes = std::fs::read(&path).unwrap_or_default();
+                    let parsed = serde_json::from_slice::<Value>(&bytes).ok();
+                    info = json!([
+                        parsed.is_some(),
+                        parsed.as_ref() == Some(&j),
+                        bytes == serde_json::to_string_pretty(&j).unwrap().as_bytes(),
+                        parsed.as_ref().map_or(json!([]), canon_keys)
+                    ]);
+                } else {
+                    res = 1;
+                }
+            }
+            8 => {
+                let _ = std::fs::remove_file(path_of(arg(1)));
+            }
+            9 => {
+                let (len, b) = (arg(2), arg(3));
+                let data: Vec<u8> = (0..len).map(|i| ((b + i) % 251) as u8).collect();
+                std::fs::write(path_of(arg(1)), data).unwrap();
+            }
+            10 => cur = arg(1) as usize,
+            11 => std::thread::sleep(Duration::from_millis(arg(1) as u64)),
+            12 => {
+                let (base, count, v, mode) = (arg(1), arg(2), st[3].as_u64().unwrap(), arg(4));
+                match mode {
+                    0 => (0..count).for_each(|i| c.set(&name_str(base + i), v)),
+                    1 => (0..count).for_each(|i| c.inc(&name_str(base + i), v)),
+                    _ => c.reg_all((0..count).map(|i| make_metric(base + i, 0, v as i64)).collect()),
+                }
+            }
+            _ => return json!(["bad-step"]),
+        }
+        let c = Arc::clone(&colls[cur]);
+        let files: Vec<Value> =
+            (0..npaths).map(|p| std::fs::read(path_of(p)).map_or(Value::Null, |b| digest(&b))).collect();
+        obs.push(json!([
+            res,
+            c.elapsed().map(ns),
+            lohi,
+            digest(serde_json::to_string_pretty(&c.json()).unwrap().as_bytes()),
+            digest(snapshot_text(c.as_ref()).as_bytes()),
+            digest(&capture_print(c.as_ref(), &tmp)),
+            files,
+            info
+        ]));
+    }
+    let c = Arc::clone(&colls[cur]);
+    let short = |b: Vec<u8>| if b.len() <= FULL_TEXT_LIMIT { bytes_json(&b) } else { Value::Null };
+    let files: Vec<Value> =
+        (0..npaths).map(|p| std::fs::read(path_of(p)).map_or(Value::Null, |b| short(b))).collect();
+    let finals = json!([
+        short(serde_json::to_string_pretty(&c.json()).unwrap().into_bytes()),
+        short(snapshot_text(c.as_ref()).into_bytes()),
+        short(capture_print(c.as_ref(), &tmp)),
+        files
+    ]);
+    json!(["ok", obs, finals])
+}
+
 fn run_transparent(input: &Value) -> Value {
     set_yield_hook(None);
     let pipe = input[0].as_i64().unwrap();
@@ -1263,6 +1502,7 @@ fn run(kind: &str, input: &Value) -> Value {
         "stress" => run_stress(input),
         "transparent" => run_transparent(input),
         "export" => run_export(input),
+        "saves" => run_saves(input),
         "busy" => run_busy(input),
         "attach" => run_attach(input),
         _ => json!(["bad-kind"]),
@@ -1698,6 +1938,126 @@ fn generate(seed: u64, tier: Tier, em: &mut Emitter) {
             true,
             &["attach", "random"],
         );
+    }
+
+    // 10. export SEQUENCES: several save_to_file calls on the same path(s) - growing, shrinking and
+    //     equal exports, from one or several collectors, next to files of other programs, removed
+    //     files and paths that cannot be created - with to_json / snapshot / print / every file
+    //     observed after EVERY step
+    let resaved = |steps: &[Value]| -> bool {
+        // honest non-triviality: some path is saved to at least twice
+        let ps: Vec<i64> = steps
+            .iter()
+            .filter(|s| s[0] == 7 && s[1].as_i64().unwrap() >= 0)
+            .map(|s| s[1].as_i64().unwrap())
+            .collect();
+        ps.iter().enumerate().any(|(i, p)| ps[..i].contains(p))
+    };
+    let pow10 = |d: u32| -> i64 { 10i64.pow(d - 1) };
+    // (a) one counter whose decimal length goes from d1 to d2 digits (20 digits = u64::MAX)
+    let lens = [1u32, 2, 3, 5, 10, 19, 20];
+    let set_len = |d: u32| -> Value { if d == 20 { json!([4, [[0, 5, 1]]]) } else { json!([1, 0, pow10(d)]) } };
+    for (i, &d1) in lens.iter().enumerate() {
+        for (j, &d2) in lens.iter().enumerate() {
+            let mut steps = vec![set_len(d1)];
+            if (i + j) % 2 == 0 {
+                steps.extend([json!([5]), json!([6])]);
+            }
+            steps.push(json!([7, 0]));
+            if (i + 2 * j) % 3 == 0 {
+                steps.push(json!([7, 1]));
+            }
+            steps.extend([set_len(d2), json!([7, 0])]);
+            if (i + 2 * j) % 3 == 0 {
+                steps.extend([json!([0, 1, 1]), json!([7, 1]), json!([7, 0])]);
+            }
+            em.case("saves", json!([1, 2, steps]), true, &["saves", "digits"]);
+        }
+    }
+    // (b) the execution time of a second, faster (slower, equal) run in the same file
+    let mut naps: Vec<(i64, i64)> = vec![(12, 0), (0, 12), (2, 2), (101, 1)];
+    if thorough {
+        naps.extend([(1001, 0), (0, 101), (10, 9), (100, 99)]);
+    }
+    for &(a, b) in &naps {
+        let steps = json!([[2, 3, 41], [5], [11, a], [6], [7, 0], [5], [11, b], [6], [7, 0], [5], [7, 0], [6], [7, 0]]);
+        em.case("saves", json!([1, 1, steps]), true, &["saves", "time"]);
+    }
+    // (c) two collectors of k and k/2 metrics taking turns on one path, then every value shrinks
+    //     from 19 digits to one: k across the powers of two
+    let mut sizes: Vec<i64> = vec![1, 2, 4, 8, 16, 20, 32, 64, 128, 256, 512, 1024];
+    if thorough {
+        sizes.extend([2048, 4096]);
+    }
+    for &k in &sizes {
+        let half = (k / 2).max(1);
+        let steps = json!([
+            [12, 0, k, pow10(19), 2], [7, 0], [10, 1], [12, 0, half, 5, 0], [7, 0], [10, 0], [7, 0],
+            [12, 0, k, 1, 0], [7, 0], [12, 0, k, pow10(10), 1], [7, 0], [7, 1]
+        ]);
+        em.case("saves", json!([2, 2, steps]), true, &["saves", "sizes"]);
+    }
+    // (d) every metric kind replaced by a one-digit counter under the same name and back
+    let exact: Vec<(i64, i64)> = catalogue.iter().copied().filter(|&(k, v)| !(k == 3 && v >= 100)).collect();
+    for (i, &(k, v)) in exact.iter().enumerate() {
+        let name = [0, -1, -2, -5, -6, 7][i % 6];
+        let steps = json!([[4, [[name, k, v]]], [7, 0], [1, name, 3], [7, 0], [4, [[name, k, v], [1, k, v]]], [7, 0]]);
+        em.case("saves", json!([1, 1, steps]), true, &["saves", "kinds"]);
+    }
+    // (e) files of other programs, removed files, paths that cannot be created, three paths
+    let path_scripts: Vec<Value> = vec![
+        json!([[1, 0, 5], [9, 0, 300, 65], [7, 0], [9, 0, 3, 65], [7, 0], [9, 0, 0, 0], [7, 0]]),
+        json!([[1, 0, 1000000], [7, 0], [8, 0], [1, 0, 7], [7, 0], [8, 0], [8, 0], [7, 0]]),
+        json!([[1, 0, 1000000], [7, 0], [1, 0, 7], [7, -1], [7, -2], [7, 0], [7, -1]]),
+        json!([[7, 0], [7, 0], [1, 0, 1], [7, 0], [10, 1], [7, 0], [7, 1], [10, 0], [7, 1]]),
+        json!([[12, 0, 6, 123456, 0], [7, 0], [7, 1], [7, 2], [12, 2, 3, 1, 0], [7, 1], [12, 0, 6, 2, 0], [7, 2], [7, 0]]),
+        json!([[4, [[0, 3, 6], [1, 4, 5]]], [5], [6], [7, 0], [10, 1], [2, 0, 1], [7, 0], [10, 2], [7, 0], [10, 0], [7, 0]]),
+        json!([[3, -1, 3], [7, 0], [5], [6], [7, 0], [10, 1], [3, -1, 3], [7, 0]]),
+        json!([[9, 1, 5000, 1], [12, 0, 40, 77, 2], [7, 1], [10, 1], [7, 1], [9, 1, 5000, 2], [7, 1]]),
+    ];
+    for sc in &path_scripts {
+        em.case("saves", json!([3, 3, sc]), true, &["saves", "paths"]);
+    }
+    // (f) seeded scripts
+    let n_saves = if thorough { 1500 } else { 150 };
+    let snames = [0, 1, 2, 3, 10, -1, -2, -3, -4, -5, -6, -7];
+    // (no u64::MAX counter here: a later increment would overflow and poison the collector)
+    let exact: Vec<(i64, i64)> = exact.iter().copied().filter(|&kv| kv != (5, 1)).collect();
+    for _ in 0..n_saves {
+        let ncoll = rng.range(1, 3);
+        let npaths = rng.range(1, 3);
+        let mut steps: Vec<Value> = Vec::new();
+        for _ in 0..rng.range(4, 12) {
+            let name = *rng.pick(&snames);
+            steps.push(match rng.range(0, 24) {
+                0..=3 => json!([1, name, pow10(rng.range(1, 19) as u32) + rng.range(0, 9)]),
+                4 | 5 => json!([0, name, pow10(rng.range(1, 18) as u32)]),
+                6 | 7 => {
+                    let (k, v) = *rng.pick(&exact);
+                    json!([4, [[name, k, v]]])
+                }
+                8 => {
+                    let ms: Vec<Value> = (0..rng.range(0, 4))
+                        .map(|_| {
+                            let (k, v) = *rng.pick(&exact);
+                            json!([*rng.pick(&snames), k, v])
+                        })
+                        .collect();
+                    json!([4, ms])
+                }
+                9 => json!([5]),
+                10 => json!([6]),
+                11 | 12 => json!([10, rng.range(0, ncoll - 1)]),
+                13 => json!([8, rng.range(0, npaths - 1)]),
+                14 => json!([9, rng.range(0, npaths - 1), *rng.pick(&[0, 1, 30, 300, 3000]), rng.range(0, 250)]),
+                15 => json!([7, rng.range(-2, -1)]),
+                16 => json!([11, 1]),
+                17 => json!([12, rng.range(0, 3), rng.range(0, 9), pow10(rng.range(1, 19) as u32), rng.range(0, 2)]),
+                _ => json!([7, rng.range(0, npaths - 1)]),
+            });
+        }
+        let nt = resaved(&steps);
+        em.case("saves", json!([ncoll, npaths, steps]), nt, &["saves", "random"]);
     }
 
     // the three views of one run's duration, below and beyond one second
